@@ -134,7 +134,8 @@ pub fn model(spec: &'static Spec) -> BoxedStrategy<Model> {
                 Kind::Flag => any::<bool>().prop_map(|b| if b { vec![BStr(Vec::new())] } else { Vec::new() }).boxed(),
                 Kind::Req => v.prop_map(|x| vec![x]).boxed(),
                 Kind::Opt => prop_oneof![1 => Just(Vec::new()), 3 => v.prop_map(|x| vec![x])].boxed(),
-                Kind::Many => prop::collection::vec(v, 0..5).boxed(),
+                // mostly a few occurrences; now and then dozens, rarely hundreds (nothing in the grammar bounds a repeated option)
+                Kind::Many => prop_oneof![40 => prop::collection::vec(v.clone(), 0..5), 3 => prop::collection::vec(v.clone(), 5..40), 1 => prop::collection::vec(v, 200..400)].boxed(),
             }
         })
         .collect();
